@@ -14,7 +14,7 @@ from ..sim.gen import D
 from .c16 import SIMPLE, TASKPOOL
 
 NB = 500
-FUNCS = ["quick", "quick", "gated", "gated", "boom", "not_async", "alt", "alt", "decorated", "pkg"]
+FUNCS = ["quick", "quick", "gated", "gated", "boom", "not_async", "alt", "alt", "decorated", "pkg", "boom_key", "boom_os"]
 GROUPS = ["G", "H", "None", "True", "0", "@home", "@", '"G"', "'H'", '"', "''", "'a", 'b"', "G\\", "apply-gated-group-0", "map-quick-group-0", "start-group-0", "start-group-1", "nope", "g" * 300, "Ünï-çødé", "a=b", "x,y"]
 SHORT = {  # documented short options: first letter, upper case if taken (ControlParser.add_function_arg)
     "apply": {"args": "-a", "kwargs": "-k", "num": "-n", "group_name": "-g", "end_callback": "-e", "cancel_callback": "-c"},
